@@ -258,6 +258,46 @@ def near_terms(tier: str):
     return out
 
 
+# ---------------------------------------------------------------- BINBIN
+def binbin_terms(tier: str):
+    """Every two-argument constructor directly over every two-argument constructor, on either side
+    (Minus inside Minus on the right, Power over a product, Divide over Divide ...), with distinct leaves."""
+    z = V("z")
+    out = []
+    two = [("minus",), ("div",), ("pow",), ("add",), ("mul",)]
+
+    def mk(tag, a, b):
+        return (tag, (a, b)) if tag in M.NARY else (tag, a, b)
+    leaves = [(x, y, z), (x, y, C(2)), (C(2), x, y)] if tier != "thorough" else \
+        [(x, y, z), (x, y, C(2)), (C(2), x, y), (x, x, y), (x, C(-1), y), (y, x, x), (x, C(0.5), x)]
+    for (t1,), (t2,) in itertools.product(two, repeat=2):
+        for a, b, c in leaves:
+            out.append(mk(t1, a, mk(t2, b, c)))
+            out.append(mk(t1, mk(t2, a, b), c))
+    return out
+
+
+# ---------------------------------------------------------------- NAMES
+EXOTIC_NAMES = ["x1", "theta", "µ", "x²", "Å", "ﬁ", "é", "self", "1", "_", "ſ", "ｘ", "变量", "kwargs", "x₂"]
+
+
+def fresh_str(s: str) -> str:
+    """An equal string that is a different object and is not interned (names built at run time)."""
+    return bytes(s, "utf-8").decode("utf-8") if len(s) > 0 else s
+
+
+def names_terms(tier: str):
+    """Small expressions over variables with unusual but legal names (several characters, non-ASCII word characters,
+    characters that change under Unicode normalisation, names of the library's own parameters)."""
+    out = []
+    for n in EXOTIC_NAMES:
+        v = V(n)
+        out += [v, Add(v, C(1)), NPow(v, 2), Mul(v, v), Mul(v, x), Pow(Add(NPow(v, 2), C(1)), v), Div(v, Add(x, C(3)))]
+    out.append(Add(V("x1"), V("x2"), V("x10")))
+    out.append(Mul(V("µ"), V("μ")))           # U+00B5 and U+03BC are different variables
+    return out
+
+
 # ---------------------------------------------------------------- NARY
 FACTOR_KINDS = [
     C(0), C(1), C(2), C(-1), x, Neg(x), Recip(y), NPow(x, 2), NPow(y, 2), Root(x, 2), Root(y, 2),
@@ -289,6 +329,18 @@ def nary_terms(tier: str):
         out.append(("mul", tuple(C(i + 2) for i in range(arity))))
         out.append(("add", tuple([x] * arity)))
         out.append(("mul", tuple([x] * arity)))
+    # every arity from 7 to 33 (pairwise / blocked reductions behave differently for odd and even levels)
+    for arity in range(7, 34):
+        out.append(("add", tuple(C(i + 1) for i in range(arity))))
+        out.append(("mul", tuple(C(1 + (i % 3)) for i in range(arity))))
+        out.append(("add", tuple([x if i % 2 else C(i)] [0] for i in range(arity))))
+        out.append(("mul", tuple((x if i % 3 == 0 else (y if i % 3 == 1 else C(2))) for i in range(arity))))
+    # subtracted / negated logarithms of several bases next to added ones
+    lg = [Log(x), Log(y), Log(x, 2), Log(y, 2), Neg(Log(x)), Neg(Log(y, 2)), Neg(Log(x, 3)), Log(Recip(y), 2), Log(Recip(x))]
+    for a, b in itertools.permutations(lg, 2):
+        out.append(("add", (a, b)))
+    for a, b, c in itertools.permutations(lg[:7], 3):
+        out.append(("add", (a, b, c)))
     # 0-/1-/4-ary sums and products inside other nodes
     inner = [Add(), Mul(), Add(x), Mul(x), Add(x, y, C(1), x), Mul(x, y, C(2), x), Add(C(1), C(2), C(3), C(4)),
              Mul(C(1), C(2), C(3), C(4)), Mul(x, C(0), y, Recip(x))]
